@@ -3,6 +3,9 @@
 use crate::core::{Ctx, Report};
 use crate::json::Json;
 
+pub mod c01;
+pub mod c02;
+pub mod enumcase;
 pub mod c13;
 pub mod c14;
 
@@ -13,6 +16,9 @@ pub const ALL: [&str; 17] = [
 
 pub fn run(ctx: &Ctx) -> Option<Report> {
     Some(match ctx.id.as_str() {
+        "C01" => c01::run(ctx, c01::Which::C01),
+        "C02" => c02::run(ctx),
+        "C07" => c01::run(ctx, c01::Which::C07),
         "C13" => c13::run(ctx),
         "C14" => c14::run(ctx),
         _ => return None,
@@ -21,16 +27,64 @@ pub fn run(ctx: &Ctx) -> Option<Report> {
 
 /// Re-runs one recorded case; returns a report holding the violations it reproduces.
 pub fn replay(property: &str, case: &Json, ctx: &Ctx) -> Option<Report> {
-    let _ = case;
     Some(match property {
+        "C01" => c01::replay(case, c01::Which::C01),
+        "C02" => c02::replay(case),
+        "C07" => c01::replay(case, c01::Which::C07),
         "C13" => c13::run(ctx),
         "C14" => c14::run(ctx),
         _ => return None,
     })
 }
 
-/// Internal entry for crash-isolated child processes (`verif child ...`).
+/// Internal entry for crash-isolated child processes:
+/// `verif child <property> <case file> [--stack <bytes>]` re-runs one case on a thread with
+/// the given stack size and prints what the monitors saw as one `CHILD-REPORT` line.
 pub fn child_main(args: &[String]) -> i32 {
-    let _ = args;
-    3
+    if args.len() < 2 {
+        eprintln!("usage: verif child <property> <case file> [--stack <bytes>]");
+        return 3;
+    }
+    let property = args[0].clone();
+    let text = match std::fs::read_to_string(&args[1]) {
+        Ok(t) => t,
+        Err(e) => {
+            eprintln!("cannot read {}: {}", args[1], e);
+            return 3;
+        }
+    };
+    let case = match Json::parse(&text) {
+        Ok(j) => j,
+        Err(e) => {
+            eprintln!("cannot parse {}: {}", args[1], e);
+            return 3;
+        }
+    };
+    let mut stack: usize = 2 << 20;
+    if args.len() >= 4 && args[2] == "--stack" {
+        stack = args[3].parse().unwrap_or(stack);
+    }
+    let handle = std::thread::Builder::new().stack_size(stack).spawn(move || {
+        let ctx = Ctx::new(&property, crate::core::Tier::Quick, 0);
+        replay(&property, &case, &ctx)
+    });
+    let report = match handle {
+        Ok(h) => match h.join() {
+            Ok(Some(r)) => r,
+            Ok(None) => {
+                eprintln!("no replay support for this property");
+                return 3;
+            }
+            Err(_) => {
+                eprintln!("child case thread panicked outside a monitored region");
+                return 101;
+            }
+        },
+        Err(e) => {
+            eprintln!("cannot spawn case thread: {}", e);
+            return 3;
+        }
+    };
+    println!("CHILD-REPORT {}", crate::child::report_to_json(&report).to_string_compact());
+    0
 }
